@@ -126,7 +126,15 @@ func dnf(c *Cond, neg bool, in []*litSet) []*litSet {
 			}
 			return out
 		}
+		// integer tightening only over integer-valued atoms (a float series value may lie strictly between two integers)
 		integral := allInt(co, k)
+		for _, t := range c.P.T {
+			for _, f := range t.M {
+				if !atomIntegral(f.A) {
+					integral = false
+				}
+			}
+		}
 		one := big.NewRat(1, 1)
 		ge := func(co map[string]*big.Rat, k *big.Rat, strict bool) (linCon, bool) {
 			kk := new(big.Rat).Set(k)
@@ -211,7 +219,7 @@ func (s *litSet) sat() bool {
 }
 
 func fmSat(cons []linCon) bool {
-	for iter := 0; iter < 12; iter++ {
+	for iter := 0; iter < 96; iter++ {
 		// constant constraints
 		var vars []string
 		seen := map[string]bool{}
@@ -239,7 +247,24 @@ func fmSat(cons []linCon) bool {
 			return true
 		}
 		sort.Strings(vars)
+		// eliminate the variable with the fewest upper×lower combinations first
 		v := vars[0]
+		best := -1
+		for _, cand := range vars {
+			np, nn := 0, 0
+			for _, c := range rest {
+				if cv := c.coef[cand]; cv != nil {
+					if cv.Sign() > 0 {
+						np++
+					} else if cv.Sign() < 0 {
+						nn++
+					}
+				}
+			}
+			if best < 0 || np*nn < best {
+				best, v = np*nn, cand
+			}
+		}
 		var pos, neg, none []linCon
 		for _, c := range rest {
 			cv := c.coef[v]
